@@ -71,7 +71,7 @@ def build_driver():
 
 def _run_extract(crates, outdir, repo):
     build_driver()
-    target = os.path.join(CACHE, "target")
+    target = os.environ.get("S3SV_TARGET") or os.path.join(CACHE, "target")
     os.makedirs(target, exist_ok=True)
     # cargo's freshness cache would skip the wrapper: forget the members
     for c in crates:
@@ -116,7 +116,8 @@ def ensure_facts(crates=None, repo=REPO, verbose=True):
     """Returns the directory holding facts.<crate>.jsonl for the current tree."""
     crates = crates or QUICK_CRATES
     os.makedirs(os.path.join(CACHE, "facts"), exist_ok=True)
-    lock = open(os.path.join(CACHE, "extract.lock"), "w")
+    # one extraction at a time per cargo target directory (self-test workers each have their own)
+    lock = open(os.path.join(CACHE, "extract.%s.lock" % os.path.basename(os.environ.get("S3SV_TARGET") or "target")), "w")
     fcntl.flock(lock, fcntl.LOCK_EX)
     try:
         h = tree_hash(repo)
